@@ -386,10 +386,18 @@ def r10e(ctx, run):
     run.ok(sfn.site(stmts[chk]["ln"]), "the Index arm has %d return(s) before its bounds check, each behind a checking helper" % n)
 
 
+def r10f(ctx, run):
+    """the tag an #unwrap (and #is_variant) compares with is the tag the producer of the value wrote for that side: get_tagged_union_discrim evaluated
+    on unions whose sides have one shape but different names - otherwise a wrong #unwrap passes its check and the right one aborts (shared with C11 R11.e)"""
+    import c11
+    c11.r11e(ctx, run)
+
+
 def rules(ctx):
     return [
         Rule("R10.a", "Expr::Index: check `index <u len` with the right operands dominates every use of the element address", 7, r10a),
         Rule("R10.b", "#unwrap: variant check dominates unwrap_sum_ty for tagged unions and nullable pointers", 3, r10b),
+        Rule("R10.f", "the tag #unwrap / #is_variant compare with is the tag the producer wrote for that side (get_tagged_union_discrim evaluated; shared with C11 R11.e)", 11, r10f),
         Rule("R10.c", "fault path: brif(cond, pass, fail); puts(message), exit(1), trap in order", 10, r10c),
         Rule("R10.d", "literal index >= array size is rejected at compile time", 1, r10d),
         Rule("R10.e", "every index is checked: no return before the bounds check in the Index arm (zero-sized items included)", 1, r10e),
